@@ -483,17 +483,28 @@ func (x *Exec) dynamicCall(st *State, fr *Frame, call *ssa.Call, fv Val, args []
 	// function-typed parameter with a declared behaviour?
 	var ps *FnParamSpec
 	name := ""
-	if p, ok := cc.Value.(*ssa.Parameter); ok && len(st.frames) == 1 {
-		name = p.Name()
-		ps = x.vc.spec.FnParams[name]
-	} else if u, ok := cc.Value.(*ssa.UnOp); ok {
-		// load of a captured / local function variable
-		if fvv, ok := u.X.(*ssa.FreeVar); ok {
-			name = fvv.Name()
+	{
+		// the source-level name behind the function value: a parameter, captured variable or local, possibly behind loads
+		v := cc.Value
+		for i := 0; i < 4 && name == ""; i++ {
+			switch vv := v.(type) {
+			case *ssa.Parameter:
+				name = vv.Name()
+			case *ssa.FreeVar:
+				name = vv.Name()
+			case *ssa.Alloc:
+				name = vv.Comment
+			case *ssa.UnOp:
+				v = vv.X
+				continue
+			}
+			break
+		}
+		if name != "" {
 			ps = x.vc.spec.FnParams[name]
-		} else if a, ok := u.X.(*ssa.Alloc); ok {
-			name = a.Comment
-			ps = x.vc.spec.FnParams[name]
+			if len(st.frames) > 1 {
+				ps = nil // fnparam contracts belong to the function under verification only
+			}
 		}
 	}
 	fterm := fv.T
@@ -651,6 +662,10 @@ func (x *Exec) stepAppend(st *State, fr *Frame, call *ssa.Call) ([]*State, bool)
 			s1.assume(Forall([]*Term{k}, Eq(Select(Select(nh, SlArr(s)), k),
 				Ite(inNew, Select(Select(h, SlArr(t)), Sidx(SlOff(t), Arith("-", k, base))), Select(Select(h, SlArr(s)), k))),
 				[]*Term{Select(Select(nh, SlArr(s)), k)}))
+			j := Var("fj", SInt)
+			src := Select(Select(h, SlArr(t)), Sidx(SlOff(t), j))
+			s1.assume(Forall([]*Term{j}, Implies(And(Cmp(">=", j, IntLit(0)), Cmp("<", j, n)),
+				Eq(Select(Select(nh, SlArr(s)), Sidx(SlOff(s), Arith("+", SlLen(s), j))), src)), []*Term{src}))
 			s1.heap[comp] = nh
 		}
 		f1.vals[call] = Val{T: MkSlice(SlArr(s), SlOff(s), newLen, SlCap(s))}
@@ -676,6 +691,16 @@ func (x *Exec) stepAppend(st *State, fr *Frame, call *ssa.Call) ([]*State, bool)
 		} else {
 			st.assume(Forall([]*Term{k}, Implies(And(Cmp(">=", k, SlLen(s)), Cmp("<", k, newLen)),
 				Eq(Select(nrow, k), Select(Select(h, SlArr(t)), Sidx(SlOff(t), Arith("-", k, SlLen(s)))))), []*Term{Select(nrow, k)}))
+			j := Var("fj", SInt)
+			src := Select(Select(h, SlArr(t)), Sidx(SlOff(t), j))
+			st.assume(Forall([]*Term{j}, Implies(And(Cmp(">=", j, IntLit(0)), Cmp("<", j, n)),
+				Eq(Select(nrow, Arith("+", SlLen(s), j)), src)), []*Term{src}))
+		}
+		{
+			// the same copy fact, triggered by reads of the old contents
+			j := Var("fj", SInt)
+			src := Select(Select(h, SlArr(s)), Sidx(SlOff(s), j))
+			st.assume(Forall([]*Term{j}, Implies(And(Cmp(">=", j, IntLit(0)), Cmp("<", j, SlLen(s))), Eq(Select(nrow, j), src)), []*Term{src}))
 		}
 		st.heap[comp] = Store(h, id, nrow)
 		f2.vals[call] = Val{T: MkSlice(id, IntLit(0), newLen, ncap)}
